@@ -446,6 +446,10 @@ class SetAlg:
                 return f_or(f_and(ci, self.cond(("truth", inner[2]))), f_and(f_not(ci), self.cond(("truth", inner[3]))))
             return ("atom", ("truth", self.canon_set(c[1])))
         if h == "subset":
+            a_ = self.strip(c[1])
+            if a_[0] in ("setlit", "listlit", "tuplelit") and not any(x[0] == "star" for x in a_[1]):
+                # {x, y} ⊆ B  <=>  x ∈ B and y ∈ B
+                return f_and(*[self.member(x, c[2]) for x in a_[1]])
             # A ⊆ B  <=>  A ∖ B = ∅
             return f_not(("atom", ("truth", self.canon_set(("diff", c[1], c[2])))))
         if h == "ite":
